@@ -387,7 +387,9 @@ func (self Reflect) listMap(v reflect.Value) node.Node {
 				}
 				item = v.MapIndex(keyVal)
 			} else {
-				if keys == nil {
+				if keys == nil || r.First {
+					// every reading of the list starts from the keys the map holds now: entries may have
+					// come and gone through other selections since this one read the list last
 					keys = v.MapKeys()
 					sort.Sort(valSorter(keys))
 				}
